@@ -327,11 +327,61 @@ def run(ctx, prop, seed):
     threads.concurrent_agree(ctx, name, thunks, norm, spec, rounds=ROUNDS.get(prop, 3))
 
 
+# properties whose concurrent job drives native code that may crash the interpreter when state is shared between calls in
+# flight (one libsndfile handle used from two threads): the job runs in a child process, whose death is a finding, not the
+# end of the check
+IN_CHILD = {"C15"}
+
+_CHILD = r"""
+import json, sys
+sys.path[:0] = {path!r}
+from rv.core.ctx import Ctx
+from rv.core import ctx as _c
+from rv.props import concurrent_jobs
+ctx = Ctx({prop!r}, {tier!r}, 0, 0, 1)
+_c.CURRENT = ctx
+concurrent_jobs.run(ctx, {prop!r}, {seed})
+print("RVCHILD" + json.dumps({{"calls": ctx.monitors.get("concurrent_calls", 0), "violations": ctx.violations, "notes": dict(ctx.notes)}}))
+"""
+
+
+def run_in_child(ctx, prop, seed):
+    import json
+    import subprocess
+    import sys
+
+    spec = {"kind": "concurrent", "seed": seed}
+    name = JOBS[prop](random.Random(seed))[0]
+    ctx.case(("concurrent", name, "child_process"), spec)
+    try:
+        r = subprocess.run([sys.executable, "-X", "faulthandler", "-c", _CHILD.format(path=[p for p in sys.path if p], prop=prop, tier=ctx.tier, seed=seed)],
+                           capture_output=True, text=True, timeout=900)
+    except subprocess.TimeoutExpired:
+        ctx.inconclusive_because(f"concurrent_child_timeout:{prop}")
+        return
+    line = next((l for l in r.stdout.splitlines() if l.startswith("RVCHILD")), None)
+    if r.returncode != 0 or line is None:
+        if r.returncode < 0 or "Fatal Python error" in r.stderr or "Segmentation fault" in r.stderr:
+            ctx.mon("concurrent_calls")
+            ctx.violate("concurrent_call_differs", f"concurrent_call_crashes_the_interpreter:{name}", observed={"returncode": r.returncode, "stderr": r.stderr[-600:]},
+                        expected="the calls return what they return alone", spec=spec)
+        else:
+            ctx.inconclusive_because(f"concurrent_child_failed:{prop}:rc={r.returncode}:{r.stderr[-200:]}")
+        return
+    d = json.loads(line[len("RVCHILD"):])
+    ctx.mon("concurrent_calls", d["calls"] or 0)
+    for v in d["violations"]:
+        ctx.violate(v["sub"], v["key"].split(":", 1)[1], observed=v.get("observed"), expected=v.get("expected"), spec=v.get("spec") or spec)
+
+
 def run_some(ctx, prop, quick=4, thorough=20):
     for _ in range(ctx.scale(quick, thorough)):
-        run(ctx, prop, ctx.rng.getrandbits(32))
+        if prop in IN_CHILD:
+            run_in_child(ctx, prop, ctx.rng.getrandbits(32))
+        else:
+            run(ctx, prop, ctx.rng.getrandbits(32))
 
 
 def replay(ctx, prop, w):
     for _ in range(5):
-        run(ctx, prop, w["spec"]["seed"])
+        (run_in_child if prop in IN_CHILD else run)(ctx, prop, w["spec"]["seed"])
